@@ -237,6 +237,11 @@ impl Gen {
                 _ => Op::new(Kd::Insert).s(s).a(k as i64).b(val),
             },
         };
+        let mut ins = ins;
+        if self.fault_pct > 0 && rng.below(2) == 0 {
+            // in runs that carry random faults, half of the insertions that rehash in place get a hasher panic
+            ins.f = Some(crate::scenario::Fault { c: crate::state::Class::Hash, k: rng.range(2, 24) as u32 });
+        }
         self.pending.push_back(ins);
     }
 
